@@ -5,7 +5,7 @@ From LV Require Import Base.Conc Base.Events Model.DhpLang Model.Dhp Proofs.DhpB
   Proofs.DhpPresA Proofs.DhpAllocA.
 Import ListNotations.
 
-Definition with_e (l : VA) (o : option (option nat)) : VA :=
+Definition with_e (l : VA) (o : option (option nat * bool)) : VA :=
   mkVA (va_tls l) (va_unpub l) (va_hold l) (va_help l) (va_node l) (va_blk l) o (va_limbo l) (va_scan l).
 
 Section AllocB.
@@ -21,11 +21,11 @@ Section AllocB.
 
   (** a new guard block: gbs grows by one, the new block is private to t *)
   Lemma JA_newblk g a h t l :
-    JA c g a h -> views a t = l -> va_blk l = None ->
+    JA c g a h -> views a t = l -> va_blk l = None -> va_e l = None ->
     let nb := List.length (gbs g) in
     JA c (fst (new_gblock c g)) (upd_aux a t (with_blk l (Some nb)) (fun x => if Nat.eqb x nb then BPriv t else bown a x)) h.
   Proof.
-    intros J Hv Hb nb. destruct J as [J1 J2 J3 J4 J5 J6 J7 J8 J9 J10 J11 J12 J15 J16 J17 J18 J13 J14].
+    intros J Hv Hb He nb. destruct J as [J1 J2 J3 J4 J5 J6 J7 J8 J9 J10 J11 J12 J15 J16 J17 J18 J13 J14].
     set (g' := fst (new_gblock c g)).
     set (a' := upd_aux a t (with_blk l (Some nb)) (fun x => if Nat.eqb x nb then BPriv t else bown a x)).
     assert (Er : recs g' = recs g) by reflexivity. assert (Et : tlist g' = tlist g) by reflexivity.
@@ -82,20 +82,23 @@ Section AllocB.
       + now rewrite Bo.
     - intros b' Hb'. rewrite Bo by lia. apply J12. lia.
     - intros b' Hb'. destruct (Nat.eq_dec b' nb) as [->|N]; [rewrite Enew; cbn; apply repeat_length|rewrite ?Egb by lia; apply J16; lia].
-    - intros t' e Ht. destruct (V t') as (E1&_&_&_&_&E6&_). rewrite E6 in Ht. rewrite E1. destruct (J17 t' e Ht) as (r & X & Y). exists r. now rewrite ?Eg.
+    - intros t' e f Ht. destruct (Nat.eq_dec t' t) as [->|N].
+      + unfold a' in Ht. rewrite upd_aux_same in Ht. cbn in Ht. congruence.
+      + unfold a' in *. rewrite upd_aux_other in * by exact N. destruct (J17 t' e f Ht) as (r & X & Y & Z). exists r. split; auto. split; auto.
+        intros Hf. destruct (Z Hf) as (b & Z1 & Z2). exists b. split; auto. destruct (J9 t' b Z1) as (W1&W2&_).
+        rewrite Egb; auto.
     - intros t' n Ht. destruct (V t') as (_&_&_&_&E5&_). rewrite E5 in Ht. eauto.
     - intros s. rewrite <- J13. destruct s as [r i|b i]; [reflexivity|].
       change (nth i (gb_slots (ggb g' b)) 0 = nth i (gb_slots (ggb g b)) 0).
       destruct (Nat.lt_ge_cases b nb) as [Hlt|Hge]; [now rewrite Egb|].
       assert (Z0 : forall n i0, nth i0 (repeat 0 n) 0 = 0) by (induction n; intros [|i0]; cbn; auto).
       destruct (Nat.eq_dec b nb) as [->|N].
-      + rewrite Enew. cbn [gb_slots]. rewrite Z0. unfold ggb. Show.
+      + rewrite Enew. cbn [gb_slots]. rewrite Z0. unfold ggb. rewrite (nth_overflow (gbs g)) by apply Nat.le_refl. cbn. now destruct i.
       + unfold ggb. rewrite (nth_overflow (gbs g')) by (rewrite Lg; lia). rewrite (nth_overflow (gbs g)) by (unfold nb in *; lia). reflexivity.
     - intros t'. destruct (V t') as (_&_&_&_&_&_&_&E8). rewrite E8. specialize (J14 t').
       destruct (va_scan (views a t')) as [ss|]; auto. destruct J14 as (X1 & X2). split; auto.
-      eapply (scan_ok_frame c g g' h h); eauto.
-      + intros n _. now rewrite ?Eg.
-      + intros s k Hl Hk. split; auto. split; auto. intros n o S b i Es Hin Hg Hi. split; auto.
-        apply Gc; eauto.
+      apply (scan_ok_frame c g g' h h ss); [lia|intros s; left; auto|exact Af|left; exact Et|intros n0 _; reflexivity| |exact X2].
+      intros s k Hl Hk. split; auto. split; auto. intros n0 o S b i Es Hin Hg Hi. split; auto.
+      apply Gc; eauto.
   Qed.
 End AllocB.
